@@ -1,7 +1,7 @@
 (** [run_line]: one case line in, one observation line out (model side of the
     correspondence check). *)
 From Coq Require Import String.
-From JP Require Import Base F64 Value Sig Slice JsonRead JsonPrint Functions Interp Lexer Parser Wire.
+From JP Require Import Base F64 Value Sig Slice JsonRead JsonPrint Functions Interp Lexer Parser Wire Spec.SliceSpec Spec.Semantics.
 
 Definition K_slice := Eval compute in s2l "slice".
 Definition K_index := Eval compute in s2l "index".
@@ -139,6 +139,27 @@ Definition run_search (ts : list tok) : list tok :=
   | [] => bad
   end.
 
+Definition K_speceval := Eval compute in s2l "speceval".
+
+(** speceval <text> <ast> <doc> : the specification's value for a core tree (oracle of the violation search) *)
+Definition run_speceval (ts : list tok) : list tok :=
+  match ts with
+  | t :: r =>
+      match parse_str t with
+      | Some text =>
+          match rd_ast (S (length r)) r with
+          | Some (a, r') =>
+              match rd_value (S (length r')) r' with
+              | Some (d, []) => if core a then pr_res text pr_value (eval a d) else [K_UNMODELLED]
+              | _ => bad
+              end
+          | None => bad
+          end
+      | None => bad
+      end
+  | [] => bad
+  end.
+
 Definition run_tokens (ts : list tok) : list tok :=
   match ts with
   | k :: r =>
@@ -149,6 +170,7 @@ Definition run_tokens (ts : list tok) : list tok :=
       else if str_eqb k K_truthy then run_truthy r
       else if str_eqb k K_fn then run_fn r
       else if str_eqb k K_parse_k then run_parse r
+      else if str_eqb k K_speceval then run_speceval r
       else if str_eqb k K_search then run_search r
       else bad
   | [] => bad
